@@ -649,6 +649,15 @@ func c16Families(tier string) []explore.Family {
 		c.want(o, exp)
 		r.Class("nonstring/" + f)
 	}})
+	nestedStr := [][2]string{{"s | strip | append: ARG", "t | upcase"}, {"s | append: ARG", "t | upcase"}, {"s | upcase | prepend: ARG", "t | downcase"}, {"s | strip | replace: ARG, 'R'", "t | downcase"},
+		{"s | downcase | split: ARG | join: '+'", "sep | strip"}, {"s | strip | truncate: ARG", "n | plus: 1"}, {"s | strip | slice: ARG", "n | minus: 1"}, {"s | strip | remove: ARG | size", "t | downcase"},
+		{"s | strip | append: ARG | append: ARG", "t | capitalize"}, {"s | rstrip | truncatewords: ARG", "n | minus: 2"}, {"s | strip | replace_first: ARG, ARG", "t | downcase"}}
+	fams = append(fams, explore.Family{Name: "filtered-expressions-as-arguments", Count: int64(len(nestedStr)), Run: func(i int64, r *explore.Rec) {
+		c := nestedStr[i]
+		r.Trace()
+		r.Class("nested-arg")
+		nestedArgLaw(r, c16.eng, "wrong:filtered-expression-as-argument", c[0], c[1], map[string]any{"s": "  héllo wörld xy ", "t": "Xy", "sep": " o ", "n": 4})
+	}})
 	return fams
 }
 
